@@ -787,6 +787,13 @@ func c09Scripts() [][][]string {
 	}
 }
 
+// TestVerif_C09_Race is the same run at the quick scale; the orchestrator builds it with -race in
+// the thorough tier (the full thorough enumeration is too slow under the race detector).
+func TestVerif_C09_Race(t *testing.T) {
+	os.Setenv("VERIF_TIER", "quick")
+	TestVerif_C09(t)
+}
+
 func TestVerif_C09(t *testing.T) {
 	tr := verifh.Open("ts")
 	defer tr.Close()
